@@ -418,7 +418,7 @@ def example_traces(v, names, maxev, tlimit=240):
     return ntr, nev
 
 
-CFG_FIELDS = ["h", "hmin", "hmax", "rel", "abs", "nsteps", "adaptive", "stepper", "sw1", "sw2", "sw3", "sw4", "sw5", "mix", "grid"]
+CFG_FIELDS = ["h", "hmin", "hmax", "rel", "abs", "nsteps", "adaptive", "stepper", "sw1", "sw2", "sw3", "sw4", "sw5", "any", "mix", "grid"]     # "any" after the switches: their setters recompute it
 
 
 def cfg_replay(exe, edges, jobs=14, timeout=900):
@@ -436,7 +436,7 @@ def cfg_replay(exe, edges, jobs=14, timeout=900):
         if e["decoy"]:
             c += ["NEW 2 2 2 1 1 8", "SW 2 1 1", "EVOLVEN 2 4"]
             for f in CFG_FIELDS:
-                c.append("CFG 2 %s %d" % (f, 0 if f in ("adaptive", "sw2", "sw3", "sw4", "sw5") else 1 if f == "sw1" else 9))
+                c.append("CFG 2 %s %d" % (f, 0 if f in ("adaptive", "sw2", "sw3", "sw4", "sw5") else 1 if f in ("sw1", "any") else 9))
             alive.add(2)
         cur = 1
         for kind, f, val in e["hist"]:
